@@ -6,6 +6,7 @@ import (
 	"fmt"
 	"go/ast"
 	"go/token"
+	"math/rand"
 	"os"
 	"strings"
 	"sync"
@@ -82,6 +83,39 @@ func c16Check(in c16Input) (key, what string) {
 				}
 			}
 		}
+	case "shared-views":
+		// files that import the same paths under different names (an alias here, the plain import
+		// there, another alias elsewhere) through ONE shared goast resolver and one shared
+		// package-name resolver: in the given order, in the reverse order, and concurrently; each
+		// result must equal that of the same call made alone with fresh resolvers
+		want := make([]string, len(in.Srcs))
+		for i, s := range in.Srcs {
+			out, err := c16Once(s, goastNew(), guess.New())
+			if err != nil {
+				out = "error: " + err.Error()
+			}
+			want[i] = out
+		}
+		for _, rev := range []bool{false, true} {
+			ident := goastNew()
+			pkg := guess.New()
+			for k := range in.Srcs {
+				i := k
+				if rev {
+					i = len(in.Srcs) - 1 - k
+				}
+				out, err := c16Once(in.Srcs[i], ident, pkg)
+				if err != nil {
+					out = "error: " + err.Error()
+				}
+				if out != want[i] {
+					return "c16-shared-view", fmt.Sprintf("file %d decorated through a resolver that has already seen the other files (reverse order: %v) differs from the same call made alone:\n%s", i, rev, firstDiff(want[i], out))
+				}
+			}
+		}
+		in2 := in
+		in2.Mode = "concurrent"
+		return c16Check(in2)
 	case "repeat-extras":
 		// Restorer.Extras: the out-of-tree declaring nodes (the assignment the parser synthesises for a
 		// range clause) get the same positions on every run
@@ -139,6 +173,60 @@ func c16Check(in c16Input) (key, what string) {
 	return "", ""
 }
 
+// genSharedViews: 3-5 small gofmt-canonical files over three import paths; every file picks, per
+// path, the plain import, one of two aliases, a blank import or nothing, and uses what it imports
+func genSharedViews(r *rand.Rand) []string {
+	paths := []string{"root/lib", "root/other/util", "example.com/x/conf"}
+	names := []string{"lib", "util", "conf"}
+	var srcs []string
+	n := 3 + r.Intn(3)
+	for i := 0; i < n; i++ {
+		type imp struct{ spec, qual string }
+		var imps []imp
+		for k, p := range paths {
+			switch r.Intn(6) {
+			case 0, 1:
+				imps = append(imps, imp{fmt.Sprintf("\t%q\n", p), names[k]})
+			case 2:
+				imps = append(imps, imp{fmt.Sprintf("\tx%d %q\n", k, p), fmt.Sprintf("x%d", k)})
+			case 3:
+				// the alias is the default name of ANOTHER path
+				o := names[(k+1)%len(names)]
+				imps = append(imps, imp{fmt.Sprintf("\t%s %q\n", o, p), o})
+			case 4:
+				imps = append(imps, imp{fmt.Sprintf("\t_ %q\n", p), ""})
+			}
+		}
+		// distinct qualifiers within one file
+		seen := map[string]bool{}
+		var keep []imp
+		for _, im := range imps {
+			if im.qual != "" && seen[im.qual] {
+				continue
+			}
+			seen[im.qual] = true
+			keep = append(keep, im)
+		}
+		var b strings.Builder
+		fmt.Fprintf(&b, "package p%d\n\n", i)
+		if len(keep) > 0 {
+			b.WriteString("import (\n")
+			for _, im := range keep {
+				b.WriteString(im.spec)
+			}
+			b.WriteString(")\n\n")
+		}
+		for j, im := range keep {
+			if im.qual != "" {
+				fmt.Fprintf(&b, "var v%d = %s.F%d(%s.K)\n\n", j, im.qual, j, im.qual)
+			}
+		}
+		b.WriteString("func local() {}\n")
+		srcs = append(srcs, b.String())
+	}
+	return srcs
+}
+
 func c16Prop(c *Ctx) {
 	c.Res.Rule = "concurrent: groups of 8 distinct sources with imports (hand corpus + $GOROOT/src sample) decorated and restored by 8 goroutines sharing one zero-value goast resolver and one guess resolver, several rounds, compared with sequential results, under the race detector; repeat: collision-heavy import configurations restored 25 times each; non-trivial = distinct input"
 	var pool []string
@@ -158,6 +246,15 @@ func c16Prop(c *Ctx) {
 		c.Res.Evaluations++
 		c.Res.seen(fmt.Sprint("conc", g, len(in.Srcs[0]), len(in.Srcs[1])))
 		c.Res.hist("c16", "concurrent")
+		if key, what := c16Check(in); key != "" {
+			c.Res.fail(key, what, in)
+		}
+	}
+	for g := 0; g < c.N(12); g++ {
+		in := c16Input{Mode: "shared-views", Rounds: 2, Srcs: genSharedViews(c.Rng)}
+		c.Res.Evaluations++
+		c.Res.seen(strings.Join(in.Srcs, "|"))
+		c.Res.hist("c16", "shared-views")
 		if key, what := c16Check(in); key != "" {
 			c.Res.fail(key, what, in)
 		}
